@@ -1,5 +1,6 @@
 mod ctrl;
 mod driver;
+mod e2;
 mod e3;
 mod model;
 mod props;
@@ -141,6 +142,10 @@ fn worker(prop: &str, tier: &str, seed: u64, start: u64, stride: u64, count: u64
             let c = per_class.entry(v.class.clone()).or_insert(0);
             *c += 1;
             if *c <= 3 {
+                let mut plan = plan.clone();
+                if !r.choices.is_empty() {
+                    plan["choices"] = json!(r.choices);
+                }
                 violations.push(json!({"index": idx, "seed": run_seed, "class": v.class, "text": v.text, "plan": plan}));
             }
         }
